@@ -1924,6 +1924,89 @@ def _setup(res):
                  'payloads are only called directly' % _WORKER_ERR)
 
 
+# ------------------------------------------------------------------------------
+# one long-lived description: verified, edited in place, verified again
+#
+def gen_tdseq(rng):
+    edits = list()
+    for _ in range(rng.randint(1, 3)):
+        edits.append(rng.choice([
+            ['append_arg', rng.choice([42, 'x y', 3.5])],
+            ['set_env', rng.choice(['K', 'OMP']), rng.choice([4, 'v', 2.5])],
+            ['set_tag', 'colocate', rng.choice([0, 't'])],
+            ['append_pre', rng.choice(['true', 'echo a'])],
+            ['clear'],
+            ['assign', 'cores_per_rank', rng.choice([2, '4'])]]))
+    return {'kind': 'tdseq', 'edits': edits,
+            'ranks': rng.choice([1, 2]),
+            'args': rng.choice([[], ['a'], ['a', 'b']])}
+
+
+def _apply_edit(td, e):
+    if   e[0] == 'append_arg': td.arguments.append(e[1])
+    elif e[0] == 'set_env'   : td.environment[e[1]] = e[2]
+    elif e[0] == 'set_tag'   : td.tags[e[1]] = e[2]
+    elif e[0] == 'append_pre': td.pre_exec.append(e[1])
+    elif e[0] == 'clear'     : td.clear()
+    elif e[0] == 'assign'    : td[e[1]] = e[2]
+
+
+def run_tdseq(case, res):
+    from ..harness import make_td
+    ctx = {'case': case}
+
+    def fresh():
+        return make_td(uid='t.seq', ranks=case['ranks'],
+                       arguments=list(case['args']))
+
+    def outcome(td):
+        try:
+            r = _ORIG_VERIFY(td)
+            return ('ok', (r if r is not None else td).as_dict())
+        except Exception as e:
+            return ('raised', type(e).__name__)
+
+    # the long-lived one: verify, edit in place, verify
+    lived = fresh()
+    first = outcome(lived)
+    if first[0] != 'ok':
+        res.inconc('tdseq: plain description does not verify: %s' % (first,))
+        return
+    for e in case['edits']:
+        try:
+            _apply_edit(lived, e)
+        except Exception:
+            pass                  # e.g. an edit of a container after clear()
+    got = outcome(lived)
+
+    # the reference: a fresh description with the same edits, verified once
+    ref = fresh()
+    for e in case['edits']:
+        try:
+            _apply_edit(ref, e)
+        except Exception:
+            pass
+    want = outcome(ref)
+
+    # defaults which verify *derives* from other attributes the first time
+    # (use_mpi from ranks) are not part of the comparison: only what verify
+    # guarantees about the values given (schema casts, required attributes)
+    for o in (got, want):
+        if o[0] == 'ok':
+            o[1].pop('use_mpi', None)
+    res.count('td_sequences_checked')
+    if got != want:
+        what = 'outcome'
+        if got[0] == want[0] == 'ok':
+            what = sorted(k for k in set(got[1]) | set(want[1])
+                          if got[1].get(k) != want[1].get(k))
+        res.violation('verify-depends-on-history',
+                      'a description verified before its last in-place edits '
+                      'verifies differently from a fresh one with the same '
+                      'content: %s (again: %s, fresh: %s)'
+                      % (what, str(got)[:300], str(want)[:300]), ctx)
+
+
 def _flush_evals(res, base):
     n = 0
     for k in ('alias', 'unchanged', 'required', 'idempotent'):
@@ -1953,6 +2036,13 @@ def run(ctx):
             res.digests.add(digest(case))
             sample(case)
         run_td(case, res)
+
+    rng = ctx.rng('tdseq')
+    for _ in range(ctx.n(3000, 120000)):
+        case = gen_tdseq(rng)
+        res.evaluations += 1
+        res.digests.add(digest(case))
+        run_tdseq(case, res)
 
     # -- pilot descriptions ------------------------------------------------------
     rng = ctx.rng('pd')
@@ -2008,6 +2098,7 @@ def replay(case, ctx):
     c    = case['case']
     kind = c.get('kind')
     if   kind == 'td'   : run_td(c, res)
+    elif kind == 'tdseq': run_tdseq(c, res)
     elif kind == 'pd'   : run_pd(c, res)
     elif kind == 'slots': run_slots(c, res)
     elif kind == 'funcseq': run_funcseq(c, res)
